@@ -181,6 +181,20 @@ func solveOne(ob *Obligation, cfg SolverCfg) {
 		st, out, secs := runSolver(solvers[0], fname, 3*time.Second)
 		ob.Seconds = secs
 		ob.Output = fmt.Sprintf("[%s: %s in %.2fs] %s", solvers[0].name, st, secs, firstLines(out, 3))
+		if st != "unsat" && st != "sat" {
+			// second opinion with a different seed and the older z3
+			for _, alt := range []solver{{"z3-new/seed1", func(ms int, f string) []string {
+				return []string{"z3-new", fmt.Sprintf("-T:%d", (ms+999)/1000), "smt.random_seed=1", f}
+			}}, solvers[2]} {
+				st2, out2, secs2 := runSolver(alt, fname, 3*time.Second)
+				ob.Seconds += secs2
+				ob.Output += fmt.Sprintf("\n[%s: %s in %.2fs] %s", alt.name, st2, secs2, firstLines(out2, 3))
+				if st2 == "unsat" || st2 == "sat" {
+					st = st2
+					break
+				}
+			}
+		}
 		if st == "unsat" {
 			ob.Status = "vacuous"
 			return
@@ -223,6 +237,14 @@ func solveOne(ob *Obligation, cfg SolverCfg) {
 	ob.Status = "unknown"
 	ob.Seconds = total
 	ob.Output = strings.Join(outputs, "\n")
+	// candidate counterexample: drop the quantified background axioms and ask for a model.
+	// Such a model may violate an axiom; it is only ever used as a replay candidate.
+	relaxed := stripQuantified(ob.smtText(true))
+	rfile := strings.TrimSuffix(fname, ".smt2") + ".relaxed.smt2"
+	os.WriteFile(rfile, []byte(relaxed), 0o644)
+	if st, mout, _ := runSolver(solvers[0], rfile, cfg.Timeout); st == "sat" {
+		ob.Model = "; candidate model with quantified axioms dropped\n" + mout
+	}
 	if ob.Cover {
 		// inconclusive reachability is not a failure of the code; recorded only
 		ob.Status, ob.Backend = "unsat", "inconclusive-cover"
@@ -235,4 +257,17 @@ func firstLines(s string, n int) string {
 		ls = ls[:n]
 	}
 	return strings.Join(ls, " | ")
+}
+
+// stripQuantified removes top-level assertions that contain quantifiers.
+func stripQuantified(text string) string {
+	var b strings.Builder
+	for _, l := range strings.Split(text, "\n") {
+		if strings.HasPrefix(l, "(assert ") && (strings.Contains(l, "(forall ") || strings.Contains(l, "(exists ")) {
+			continue
+		}
+		b.WriteString(l)
+		b.WriteByte('\n')
+	}
+	return b.String()
 }
